@@ -21,7 +21,7 @@ BEADS_FAULTS = {'file_not_found': 'not found', 'too_few_events': 'lower than 400
 FAULT_OF_MESSAGE = [('not found', 'fileNotFound'), ('lower than 400', 'tooFewEvents'), ('gate fraction', 'gateFraction'), ('not recognized', 'unitsNotRecognized'),
                     ('not available', 'mefNotAvailable'), ('no standard curve', 'noCurveForChannel'), ('Instruments for', 'otherInstrument'),
                     ('Amplification type', 'amplificationType'), ('Detector voltage', 'detectorVoltage')]
-FILES = {'s0.fcs': 600, 's1.fcs': 600, 'nope.fcs': None, 'small.fcs': 120, 'volt.fcs': 600, 'volt0.fcs': 600, 'lin.fcs': 600, 'n380.fcs': 380, 'n399.fcs': 399}
+FILES = {'s0.fcs': 600, 's1.fcs': 600, 'nope.fcs': None, 'small.fcs': 120, 'volt.fcs': 600, 'volt0.fcs': 600, 'lin.fcs': 600, 'n380.fcs': 380, 'n399.fcs': 399, 'n400.fcs': 400, 'linf.fcs': 600}
 UNIT_CELLS = [None, None, 'MEF', 'mef', 'Mef', 'a.u.', 'AU', 'RFI', 'rfi', 'Channel', 'furlongs', 'MEFL', '', 'a.u', '.au', 'u', 'rf', 'me', 'hannel', ' ']
 
 
@@ -40,7 +40,7 @@ def row_facts(spec, beads_table=True):
         if u is None:
             continue
         chans.append({'units': u, 'fxn': spec['beads'] in ('B1', 'B1b', 'BI2'), 'same_inst': spec['beads'] != 'BI2',
-                      'has_mef': spec['beads'] in ('B1', 'B1b') and c in ('FL1', 'FL2'), 'amp': spec['file'] != 'lin.fcs', 'volt': spec['file'] not in ('volt.fcs', 'volt0.fcs')})
+                      'has_mef': spec['beads'] in ('B1', 'B1b') and c in ('FL1', 'FL2'), 'amp': spec['file'] not in ('lin.fcs', 'linf.fcs'), 'volt': spec['file'] not in ('volt.fcs', 'volt0.fcs')})
     n = FILES[spec['file']]
     return {'file_found': n is not None, 'n_events': n or 0, 'beads_table': beads_table, 'gate_ok': spec['gate'] == 'ok', 'channels': chans}
 
@@ -59,6 +59,10 @@ class Setup:
         ex.write_fcs('small.fcs', 'FC001', n=120, seed=seed + 20)
         ex.write_fcs('n380.fcs', 'FC001', n=380, seed=seed + 23)        # between the gate's own limit (350) and the documented 400
         ex.write_fcs('n399.fcs', 'FC001', n=399, seed=seed + 24)
+        ex.write_fcs('n400.fcs', 'FC001', n=400, seed=seed + 26)        # exactly the documented minimum: a healthy row
+        ex.datatype = 'F'
+        ex.write_fcs('linf.fcs', 'FC001', n=600, voltage=450, seed=seed + 27)        # a floating-point file (linear amplifiers) against log-amplified beads
+        ex.datatype = 'I'
         ex.write_fcs('volt.fcs', 'FC001', n=600, voltage=620, seed=seed + 21)
         ex.write_fcs('volt0.fcs', 'FC001', n=600, voltage=0, seed=seed + 25)        # a recorded voltage of zero is a voltage, and differs from the beads'
         ex.write_fcs('lin.fcs', 'FC001', n=600, voltage=450, log_fl=False, seed=seed + 22)
@@ -121,7 +125,7 @@ class Setup:
             return R(sid, 'FC001', 'volt.fcs', {'FL1': 'MEF'}, 'B1')
         raise ValueError(kind)
 
-    def process(self, rows, table=None, no_table=False):
+    def process(self, rows, table=None, no_table=False, bare_table=False):
         st = table if table is not None else excelgen.table(rows, columns=['Instrument ID', 'Beads ID', 'File Path', 'Gate Fraction', 'FL1 Units', 'FL2 Units', 'FL3 Units'])
         np.random.seed(11)
         with warnings.catch_warnings():
@@ -130,7 +134,11 @@ class Setup:
                 # the optional beads table left out: the transformation functions alone decide what can be converted
                 res = FlowCal.excel_ui.process_samples_table(st, self.instruments, mef_transform_fxns=self.fxns, base_dir=self.ex.dir)
             else:
-                res = FlowCal.excel_ui.process_samples_table(st, self.instruments, mef_transform_fxns=self.fxns, beads_table=self.beads_table,
+                bt = self.beads_table
+                if bare_table:
+                    # a beads table holding the documented fields only (no 'Analysis Notes' column)
+                    bt = bt.drop(columns=[c for c in bt.columns if c == 'Analysis Notes'])
+                res = FlowCal.excel_ui.process_samples_table(st, self.instruments, mef_transform_fxns=self.fxns, beads_table=bt,
                                                              base_dir=self.ex.dir)
         return st, res
 
@@ -186,18 +194,20 @@ class Prop(common.PropertyCheck):
         for others in (['B1b', 'BNOMEF'], ['BFAIL', 'B1b', 'BI2'], ['B1b', 'B1']):
             yield {'k': 'combo', 'rows': [first] + [dict(first, beads=b) for b in others]}
         yield {'k': 'combo', 'rows': [first, dict(first, file='volt0.fcs'), dict(first, file='volt.fcs'), dict(first, file='volt0.fcs', units={'FL1': 'RFI', 'FL2': None, 'FL3': None})]}
+        yield {'k': 'combo', 'rows': [first, dict(first, file='linf.fcs'), dict(first, file='linf.fcs', units={'FL1': 'a.u.', 'FL2': 'RFI', 'FL3': None}), dict(first, file='lin.fcs')]}
+        yield {'k': 'combo', 'bare_table': True, 'rows': [first, dict(first, beads='BFAIL'), dict(first, beads='BNOMEF'), dict(first, file='volt.fcs'), first]}
         # without the optional beads table
         yield {'k': 'combo', 'no_table': True, 'rows': [first, dict(first, units={'FL1': None, 'FL2': None, 'FL3': 'MEF'}), dict(first, beads='BFAIL'), first,
                                                         dict(first, units={'FL1': 'MEF', 'FL2': 'MEF', 'FL3': 'mef'}), dict(first, file='nope.fcs')]}
         yield {'k': 'combo', 'no_table': True, 'rows': [dict(first, beads='BI2'), first, dict(first, units={'FL1': 'RFI', 'FL2': None, 'FL3': 'MEF'}, beads='B1b')]}
         plain = {'file': 's1.fcs', 'units': {'FL1': 'RFI', 'FL2': 'a.u.', 'FL3': 'Channel'}, 'gate': 'ok'}
-        yield {'k': 'combo', 'rows': [dict(plain, beads=b) for b in ('BFAIL', 'BNOMEF', 'BI2', 'B1')] + [dict(plain, file='n380.fcs', beads='B1'), dict(plain, file='n399.fcs', beads='B1')]}
+        yield {'k': 'combo', 'rows': [dict(plain, beads=b) for b in ('BFAIL', 'BNOMEF', 'BI2', 'B1')] + [dict(plain, file='n380.fcs', beads='B1'), dict(plain, file='n399.fcs', beads='B1'), dict(plain, file='n400.fcs', beads='B1')]}
         # rows with several simultaneous faults: which one is reported is decided by the model's decision table
         for _ in range(self.budget(6, 80)):
             rows = []
             for _ in range(rng.randrange(2, 6)):
                 units = {c: rng.choice(UNIT_CELLS) for c in ('FL1', 'FL2', 'FL3')}
-                rows.append({'file': rng.choice(['s0.fcs', 's0.fcs', 's1.fcs', 'nope.fcs', 'small.fcs', 'volt.fcs', 'lin.fcs', 'volt0.fcs']),
+                rows.append({'file': rng.choice(['s0.fcs', 's0.fcs', 's1.fcs', 'nope.fcs', 'small.fcs', 'volt.fcs', 'lin.fcs', 'volt0.fcs', 'linf.fcs']),
                              'beads': rng.choice(['B1', 'B1', 'B1b', 'BNOMEF', 'BFAIL', 'BI2']), 'units': units, 'gate': rng.choice(['ok', 'ok', 'bad'])})
             yield {'k': 'combo', 'rows': rows}
 
@@ -291,7 +301,7 @@ class Prop(common.PropertyCheck):
             if case['k'] == 'combo':
                 rows = [excelgen.sample_row('R%d' % i, 'FC001', r['file'], {c: u for c, u in r['units'].items() if u is not None}, r['beads'],
                                             gate_fraction=0.85 if r['gate'] == 'ok' else 1.5) for i, r in enumerate(case['rows'])]
-                st, res = s.process(rows, no_table=bool(case.get('no_table')))
+                st, res = s.process(rows, no_table=bool(case.get('no_table')), bare_table=bool(case.get('bare_table')))
                 out = {'ids': list(res.keys()),
                        'faults': [fault_of(str(v)) if isinstance(v, FlowCal.excel_ui.ExcelUIException) else 'none' for v in res.values()], 'same_as_single': []}
                 # every healthy row equals its own single-row run
@@ -301,7 +311,7 @@ class Prop(common.PropertyCheck):
                         continue
                     key = 'combo:' + ('nt:' if case.get('no_table') else '') + _json.dumps(r, sort_keys=True)
                     if key not in s.single_cache:
-                        _, one = s.process([dict(row, ID='solo')], no_table=bool(case.get('no_table')))
+                        _, one = s.process([dict(row, ID='solo')], no_table=bool(case.get('no_table')), bare_table=bool(case.get('bare_table')))
                         s.single_cache[key] = fpm.sample_fp(one['solo']) if not isinstance(one['solo'], Exception) else None
                     ref = s.single_cache[key]
                     fp = fpm.sample_fp(v)
